@@ -110,7 +110,7 @@ pub fn bit_units(name: &'static str, tier: Tier, seed: u64) -> Vec<Unit> {
     {
         let nd: u8 = if loc == Mode::Reg { 16 } else if loc == Mode::Ind { 8 } else { 1 };
         let nn: u8 = if by_reg { 16 } else { 1 };
-        let dom = format!("all {} operand/address registers x {} bit-number registers x 6 operand values x 8 bit numbers x K4 CCR, non-zero upper address byte", nd, nn);
+        let dom = format!("all {} operand/address registers x {} bit-number registers x 6 operand values x 8 bit numbers x K4 CCR, upper address byte c3 and 3c", nd, nn);
         units.push(Unit::new(&format!("{}/R", name), nd as u64, &dom, move |ctx, chunk| {
             let r = chunk as u8;
             for rn in 0..nn {
@@ -127,8 +127,14 @@ pub fn bit_units(name: &'static str, tier: Tier, seed: u64) -> Vec<Unit> {
                         };
                         f.data = ea & 0xff;
                         for &ccr in &K4 {
-                            let c = bit_case(&ctx.isa, row, &f, loc, by_reg, ea, 0xc3, val, 0xf8 | bn, ccr, dom::CODE_RAM);
-                            ctx.run(&c);
+                            // upper byte of the address register: every bit both ways
+                            for top in [0xc3u8, 0x3c] {
+                                if loc != Mode::Ind && top != 0xc3 {
+                                    continue;
+                                }
+                                let c = bit_case(&ctx.isa, row, &f, loc, by_reg, ea, top, val, 0xf8 | bn, ccr, dom::CODE_RAM);
+                                ctx.run(&c);
+                            }
                         }
                     }
                 }
